@@ -63,8 +63,10 @@ TickClauses(e) ==
        <<"C12.cancelled-command-finalized", mustFinalize \subseteq finalized>>,
        <<"C12.cancelled-pause-ends", mustUnpause /\ ~otherPause => ~e.paused \/ e.err>>,
        <<"C12.cancelled-hold-ends", mustUnhold /\ ~otherHold => ~e.holding>>,
-       <<"C12.force-proceeds", \A f \in forced : f[2] + 2 <= e.t /\ e.started /\ ~e.paused /\ ~e.holding /\ f[3] = e.runId
-                                                => f[1] \in SetOfSeq(e.proceededEver)>> >>
+       <<"C12.force-proceeds",     \* two tick boundaries at which the run progresses after the force: the interpreter ran in between
+         \A f \in forced : (/\ p.t >= f[2] + 1 /\ p.started /\ ~p.paused /\ ~p.holding /\ p.runId = e.runId
+                             /\ e.started /\ ~e.paused /\ ~e.holding /\ f[3] = e.runId)
+                            => f[1] \in SetOfSeq(e.proceededEver)>> >>
 
 NoPrev == [t |-> -1]
 TInit == /\ inited = {} /\ execed = {} /\ finalized = {} /\ tickExec = {} /\ cancelledWatch = {} /\ mustFinalize = {}
